@@ -74,6 +74,12 @@ Emit == Chosen =>
                           posdep |-> ~PositionIndependent(a, b), tag |-> "table"]))
         /\ NatApplies => PrintT(ToJson([k |-> "pair", e |-> TextsA[vA], b |-> TextsB[vB], m |-> NatAnswer,
                                         posdep |-> ~PositionIndependent(a, b), tag |-> "natural"]))
+        \* the expression's own term as allowed entry, preceded by a ranged entry UNDER AN EXCEPTION whose range covers it: the
+        \* term matches itself whatever else is on the list (an entry "covered" by another entry's range is not redundant
+        \* when the two differ in their exception)
+        /\ (BothLic /\ a.exc = "" /\ b.plus /\ HasSuffix(TextsB[vB], "+")) =>
+              /\ PrintT(ToJson([k |-> "sat", e |-> TextsA[vA], a |-> <<TextsB[vB] \o " WITH " \o PairExc, TextsA[vA]>>, sat |-> TRUE, err |-> FALSE]))
+              /\ PrintT(ToJson([k |-> "sat", e |-> TextsA[vA] \o " WITH " \o PairExc, a |-> <<TextsB[vB], TextsA[vA] \o " WITH " \o PairExc>>, sat |-> TRUE, err |-> FALSE]))
         \* the ranged entry next to its own un-ranged twin (and the other way round): 'X+' must keep its reach
         /\ (BothLic /\ b.plus /\ HasSuffix(TextsB[vB], "+")) =>
               LET twin == DropSuffix(TextsB[vB], 1)
